@@ -147,7 +147,7 @@ pub fn run(sc: &Scenario, hooks: Hooks) -> Vec<Value> {
     let mut executor = Executor::new(net, sc.seed);
     let handle = executor.handle().clone();
     let scn = Arc::new(sc.clone());
-    let shared = apps::Shared { sc: scn.clone(), outstanding: Arc::new(AtomicI64::new(0)), started: Arc::new(AtomicBool::new(false)) };
+    let shared = apps::Shared { sc: scn.clone(), outstanding: Arc::new(AtomicI64::new(apps::expected_roles(sc))), started: Arc::new(AtomicBool::new(false)) };
     let Hooks { client_tap, server_tap } = hooks;
 
     let res = std::panic::catch_unwind(std::panic::AssertUnwindSafe(|| {
